@@ -1118,6 +1118,7 @@ func runC04(c *Ctx) error {
 		if err != nil {
 			return fmt.Errorf("chainlib.NewNode: %v", err)
 		}
+		defer node.CloseSettled()
 		nF := c.N(150, 1000)
 		checked := 0
 		for i := 0; i < nF; i++ {
